@@ -50,6 +50,27 @@ CLAIMED.update({
     },
 })
 
+CLAIMED.update({
+    "C10": {
+        "text": "Coq theorems: (end to end, for any codec that round-trips, any handler bodies, any parts with disjoint names) the body a helper builds for method m with arguments vals, sent to the target's entry point of that kind, logs exactly the call m(vals); executor builder = execute message with the handle's address, the body and the funds set last, for every sequence of with_funds (induction); instantiate builder = instantiate/instantiate2 message with code id, message, last admin/label/funds, empty label when unset, for every sequence of setters (induction). Tie: L3 the real helpers (handle typed by contract, contract-as-interface, dyn Interface, borrowed querier) with random arguments, the built body delivered to the target's real execute/query entry points; builders vs the Coq model.",
+        "note": COMMON_NOTE + "The builders are hand-modelled (tied by L3); the generated helper methods are exercised on a fixed target contract with an interface, not on generated programs (those are C01-C03's). WasmMsg's own JSON layout is cosmwasm-std's.",
+        "technique": "Coq proof (composition of encode/wrapper/dispatch theorems; induction over builder steps) + L3 differential runs delivering built messages to real entry points",
+        "design_ref": "DESIGN.md section 5 / C10",
+    },
+    "C11": {
+        "text": "Coq theorems over responses with any number of sub-messages of the CosmosMsg kinds of the harness feature set: into_response fails iff some sub-message is custom-typed, and otherwise returns the response unchanged field for field (sub-messages in order with id, payload, gas limit, reply trigger; attributes; events; data); induction through collect (first error wins, no partial response). The arm table of IntoMsg::into_msg and the field map of the rebuilt SubMsg are regenerated from sylvia/src/into_response.rs on every run. Tie: L3 real IntoResponse on random responses vs model and oracle; L1 which interface arms are bridged vs the custom(..) markers.",
+        "note": COMMON_NOTE + "The list of CosmosMsg variants is cosmwasm-std's (features staking, stargate, cosmwasm_2_0), assumed and exercised by L3. Handlers seeing the same storage/env/sender under a bridged ctx is observed at L1 (into_empty placement) only.",
+        "technique": "Coq proof over tables regenerated from the source (translator) + L3 differential correspondence",
+        "design_ref": "DESIGN.md section 5 / C11",
+    },
+    "C20": {
+        "text": "Coq theorems over the serde description of Remote regenerated from sylvia/src/types.rs (field list, serde attributes, schema name): the encoding is the object with the single member addr for every type parameter and both ownerships; decode(encode) gives the address back at any type parameter; schema name is Remote. Tie: L3 the real Remote with five type parameters (contract, dyn Interface, dyn Interface with associated type, Empty, ()), owned and borrowed, arbitrary address strings, two JSON back ends, malformed documents, schemas compared across type parameters.",
+        "note": COMMON_NOTE + "Addr/Cow serialising as a plain string is cosmwasm-std/serde behaviour (assumed, exercised by L3).",
+        "technique": "Coq proof over a struct description regenerated from the source (translator) + L3 differential correspondence",
+        "design_ref": "DESIGN.md section 5 / C20",
+    },
+})
+
 NOT_YET = {}
 
 
